@@ -82,8 +82,15 @@ func main() {
 	c := &Ctx{Tier: *tier, Seed: *seed, Part: *part, NParts: *nparts, Arg: *arg, TmpDir: *tmp, Out: *out,
 		R: lab.NewResult(name, fmt.Sprintf("%d/%d:%s", *part, *nparts, *arg), *seed), J: lab.OpenJournal(*journal)}
 	t0 := time.Now()
+	canary := lab.NewWatchdog(1, 1000*time.Hour, func(string, bool, string) {})
 	f(c)
 	c.R.Obs("child_wall_ms", time.Since(t0).Milliseconds())
+	c.R.ObsMax("process_canary_max_late_ms", canary.MaxLateMs())
+	// Verdicts whose only evidence is "it did not happen within N seconds" are not believed from a process whose
+	// own canary goroutine was scheduled more than a second late at some point: they become inconclusive.
+	if late := canary.MaxLateMs(); late > 1000 {
+		c.R.DemoteTimeoutVerdicts(late)
+	}
 	if *out != "" {
 		if err := c.R.Write(*out); err != nil {
 			fmt.Fprintln(os.Stderr, "write result:", err)
